@@ -60,6 +60,7 @@ type retRec struct {
 }
 
 type Frame struct {
+	patHit map[string]bool // call-clause patterns that matched some executed call (top frame)
 	c        *Ctx
 	sibCells map[*ssa.Alloc]Term
 	capVals  map[*ssa.Alloc]Term          // contents of write-once captured variables (top frame)
